@@ -6,8 +6,7 @@ from ..core import rec_fields, unhex, hexs
 
 STALE = "an edit through a handle obtained before an operation that rebuilds its node is not visible in the field"
 
-FIXES = ["insert-first", "append-sep", "pipe", "mut-root", "add-profile", "entry-push", "builder-archs",
-         "version-pos", "remove-last", "first-substvar", "replace-ws"]
+FIXES = ["insert-first", "append-sep", "pipe", "entry-push", "version-pos", "remove-last", "first-substvar", "replace-ws"]
 
 def detect_fixes(repo):
     """which of the proposed fixes (proposed_fixes/C11-*.patch) the repository under test contains,
@@ -22,10 +21,7 @@ def detect_fixes(repo):
         "insert-first": "if idx == 0 && is_empty {" not in flat,
         "append-sep": "trailing_whitespace" in flat,
         "pipe": 'builder.token(COMMA.into(), "|")' not in flat,
-        "mut-root": "SyntaxNode::new_root(self.0.green()" not in flat,
-        "add-profile": "let node_profiles = self.0.children().find(|n| n.kind() == PROFILES);" not in flat,
         "entry-push": flat.count("self.0.replace_with(") <= 1,
-        "builder-archs": "if !self.architectures.is_empty()" in flat,
         "version-pos": "archqual_node.index() + 1" in flat,
         "remove-last": "if parent.is_empty() { parent.remove(); } else { self.0.detach(); }" not in flat,
         "first-substvar": "n.kind() == ENTRY || n.kind() == SUBSTVAR" in flat,
@@ -75,7 +71,7 @@ class C11(Prop):
                   "(2) on ANY children list (any layout, empty entries, substitution variables): Entry::remove/Relation::remove delete the node, adjacent white space and at most one separator and nothing else; "
                   "insert/push add the entry and separator tokens only; the entries after an insert are the list insert; an update below a path leaves the text outside that node alone; "
                   "the store-level effect of Entry::remove through a handle at any path of any tree; "
-                  "(3) for each of the 11 defects of the shipped code a _refuted theorem (failing history on `shipped` and on the variant lacking only that fix, outcome on `fixed`); "
+                  "(3) for each of the 8 defects of the code at /repo HEAD a _refuted theorem (failing history on `shipped` and on the variant lacking only that fix, outcome on `fixed`); "
                   "(4) a witness for the recorded finding (handles obtained before a rebuilding operation). "
                   "PARTIAL: C11_full (any well-formed initial layout, all 14 operations, operands built by parsing/builder, re-parse of the printed text) is stated as a Definition; "
                   "outside (1)-(2) the property is checked by the rel-edit stream and its list-model oracle on every run.")
